@@ -43,7 +43,7 @@ def _observe_base(self) -> list[int]:
         flags = (int(sc._active) + 2 * int(sc._cancel_called) + 4 * int(sc._cancelled_caught)
                  + 8 * int(sc._shield) + 16 * int(sc._cancel_handle is not None)
                  + 32 * int(sc._timeout_handle is not None))
-        dl = -1 if sc._deadline == math.inf else int(sc._deadline)
+        dl = -1 if sc._deadline == math.inf else (0 if sc._deadline == -math.inf else int(sc._deadline))
         out += [flags, sc._pending_uncancellations or 0, dl, self.tid_of_task(sc._host_task),
                 self.sid(sc._parent_scope), len(sc._tasks), len(sc._child_scopes)]
     out.append(len(self.groups))
